@@ -1,3 +1,4 @@
+import StorageModel.C10.G4
 /-
   C10 — committed expectations for the data /verif/extract regenerates from the source
   (Generated/C10Classes.lean, Generated/C10Sites.lean).  The model in this directory was written
@@ -141,6 +142,45 @@ def expectedSites : List (String × String × String × String × Nat × Bool) :
   ("ast/node_symbol.go", "Int64SymbolNode.EvalString", "deref", "*int64Val", 1, true),
   ("ast/node_symbol.go", "SymbolValidator.VisitUntypedSubQueryNodeEnd", "index", "visitor.typeStack[0]", 1, false),
   ("ast/node_symbol.go", "SymbolValidator.VisitUntypedSubQueryNodeEnd", "slice", "visitor.typeStack[1:]", 1, false),
+  ("boltz/query_scanners.go", "Row.Compare", "assert", "other.(*Row)", 1, false),
+  ("boltz/query_scanners.go", "scanner.setPaging", "deref", "*query.GetLimit()", 2, true),
+  ("boltz/query_scanners.go", "scanner.setPaging", "deref", "*query.GetSkip()", 1, true),
+  ("boltz/query_scanners.go", "sortingScanner.ScanCursor", "assert", "row.(*Row)", 1, false),
+  ("boltz/query_sort.go", "boolSymbolComparator.Compare", "deref", "*s1", 2, true),
+  ("boltz/query_sort.go", "boolSymbolComparator.Compare", "deref", "*s2", 2, true),
+  ("boltz/query_sort.go", "datetimeSymbolComparator.Compare", "deref", "*s2", 2, true),
+  ("boltz/query_sort.go", "float64SymbolComparator.Compare", "deref", "*s1", 2, true),
+  ("boltz/query_sort.go", "float64SymbolComparator.Compare", "deref", "*s2", 2, true),
+  ("boltz/query_sort.go", "int64SymbolComparator.Compare", "deref", "*s1", 2, true),
+  ("boltz/query_sort.go", "int64SymbolComparator.Compare", "deref", "*s2", 2, true),
+  ("boltz/query_sort.go", "stringSymbolComparator.Compare", "deref", "*s1", 2, true),
+  ("boltz/query_sort.go", "stringSymbolComparator.Compare", "deref", "*s2", 2, true),
+  ("boltz/store_query.go", "BaseStore.NewScanner", "index", "sort[0]", 2, false),
+  ("boltz/store_query.go", "BaseStore.NewScanner", "slice", "sort[:SortMax]", 1, false),
+  ("boltz/typed_bucket.go", "BytesToBool", "index", "value[0]", 1, false),
+  ("boltz/typed_bucket.go", "FieldToFloat64", "deref", "*int64Result", 1, true),
+  ("boltz/typed_bucket.go", "FieldToInt64", "deref", "*int32val", 1, true),
+  ("boltz/typed_bucket.go", "FieldToString", "deref", "*boolVal", 1, false),
+  ("boltz/typed_bucket.go", "FieldToString", "deref", "*floatVal", 1, false),
+  ("boltz/typed_bucket.go", "FieldToString", "deref", "*intVal", 1, false),
+  ("objectz/object_store.go", "ObjectStore.newRowComparator", "assert", "symbol.(*ObjectBoolSymbol[T])", 1, false),
+  ("objectz/object_store.go", "ObjectStore.newRowComparator", "assert", "symbol.(*ObjectDatetimeSymbol[T])", 1, false),
+  ("objectz/object_store.go", "ObjectStore.newRowComparator", "assert", "symbol.(*ObjectFloat64Symbol[T])", 1, false),
+  ("objectz/object_store.go", "ObjectStore.newRowComparator", "assert", "symbol.(*ObjectInt64Symbol[T])", 1, false),
+  ("objectz/object_store.go", "ObjectStore.newRowComparator", "assert", "symbol.(*ObjectStringSymbol[T])", 1, false),
+  ("objectz/object_store.go", "memEntityComparable.Compare", "assert", "c.(*memEntityComparable[T])", 1, false),
+  ("objectz/object_store.go", "memSortingScanner.Scan", "assert", "row.(*memEntityComparable[T])", 1, false),
+  ("objectz/object_store.go", "scanner.setPaging", "deref", "*query.GetLimit()", 2, true),
+  ("objectz/object_store.go", "scanner.setPaging", "deref", "*query.GetSkip()", 1, true),
+  ("objectz/object_store_sort.go", "objectBoolSymbolComparator.compare", "deref", "*s1", 2, true),
+  ("objectz/object_store_sort.go", "objectBoolSymbolComparator.compare", "deref", "*s2", 2, true),
+  ("objectz/object_store_sort.go", "objectDatetimeSymbolComparator.compare", "deref", "*s2", 2, true),
+  ("objectz/object_store_sort.go", "objectFloat64SymbolComparator.compare", "deref", "*s1", 2, true),
+  ("objectz/object_store_sort.go", "objectFloat64SymbolComparator.compare", "deref", "*s2", 2, true),
+  ("objectz/object_store_sort.go", "objectInt64SymbolComparator.compare", "deref", "*s1", 2, true),
+  ("objectz/object_store_sort.go", "objectInt64SymbolComparator.compare", "deref", "*s2", 2, true),
+  ("objectz/object_store_sort.go", "objectStringSymbolComparator.compare", "deref", "*s1", 2, true),
+  ("objectz/object_store_sort.go", "objectStringSymbolComparator.compare", "deref", "*s2", 2, true),
   ("zitiql/util.go", "ParseZqlDatetime", "index", "m[0]", 2, false),
   ("zitiql/util.go", "ParseZqlDatetime", "index", "m[0][1]", 1, false),
   ("zitiql/util.go", "parse", "assert", "lexerPool.Get().(*ZitiQlLexer)", 1, false),
@@ -152,5 +192,43 @@ def expectedCallbacks : List String := ["EnterDatetimeArray", "EnterNumberArray"
 /-- zitiql.parse: the collecting listener is attached to the lexer (after removing the default
     console listener) and to the parser, and the listener is walked over the tree -/
 def expectedWiring : Bool × Bool × Bool × Bool := (true, true, true, true)
+
+/-- zitiql.parse (since 956c2a8): a pooled parser starts from no error listener and leaves none behind -/
+def expectedWiringPool : Bool × Bool := (true, true)
+
+/-- what is pinned of the two generated files: (sha256 of the whole file, sha256 of the
+    serializedATN integers, its length, number of ATN states, number of decisions) for
+    zitiql_lexer.go and zitiql_parser.go -/
+def atnPins (l p : G4.AtnSummary) : (String × String × Nat × Nat × Nat) × (String × String × Nat × Nat × Nat) :=
+  ((l.fileSha256, l.sha256, l.length, l.states, l.decisions), (p.fileSha256, p.sha256, p.length, p.states, p.decisions))
+
+def expectedAtnPins : (String × String × Nat × Nat × Nat) × (String × String × Nat × Nat × Nat) :=
+  (("7ab6599a461bece8a983b914d02d901b5281b6bb1e00d252670e2abe2c38fcd4",
+    "6e329f90965c1876ddf294a0d5f882c0259239481ff1d1034dec118b484d1de0", 5285, 602, 39),
+   ("a295c89d7ce87081f321b63e97f1a1cf4ef79ad20d1b10afbb73cdbd06116864",
+    "5f1ea4224b6cf7e8c2b66cfcacd428d7867804373ac5e6752417e8f012564f11", 6846, 728, 106))
+
+open G4 in
+/-- the parser rules of zitiql/ZitiQl.g4 (in file order) the reference recogniser `parseStart`, the
+    derivation trees of Grammar.lean and their `wf` were written against; `Properties/C10` proves
+    that the regenerated grammar file has exactly these parser rules, `G4Proofs.lean` that every
+    well-formed derivation tree is a derivation in THESE rules (relation `G4.Derives`) -/
+def expectedParserRules : List G4.Rule := [
+  ⟨"stringArray", false, (.seq (.ref "LBRACKET") (.seq (.star (.ref "WS")) (.seq (.ref "STRING") (.seq (.star (.seq (.star (.ref "WS")) (.seq (.lit [44]) (.seq (.star (.ref "WS")) (.ref "STRING"))))) (.seq (.star (.ref "WS")) (.ref "RBRACKET")))))), [""]⟩,
+  ⟨"numberArray", false, (.seq (.ref "LBRACKET") (.seq (.star (.ref "WS")) (.seq (.ref "NUMBER") (.seq (.star (.seq (.star (.ref "WS")) (.seq (.lit [44]) (.seq (.star (.ref "WS")) (.ref "NUMBER"))))) (.seq (.star (.ref "WS")) (.ref "RBRACKET")))))), [""]⟩,
+  ⟨"datetimeArray", false, (.seq (.ref "LBRACKET") (.seq (.star (.ref "WS")) (.seq (.ref "DATETIME") (.seq (.star (.seq (.star (.ref "WS")) (.seq (.lit [44]) (.seq (.star (.ref "WS")) (.ref "DATETIME"))))) (.seq (.star (.ref "WS")) (.ref "RBRACKET")))))), [""]⟩,
+  ⟨"start", false, (.seq (.star (.ref "WS")) (.seq (.ref "query") (.seq (.star (.ref "WS")) (.ref "EOF")))), ["End"]⟩,
+  ⟨"query", false, (.alt (.seq (.ref "boolExpr") (.seq (.opt (.seq (.plus (.ref "WS")) (.ref "sortBy"))) (.seq (.opt (.seq (.plus (.ref "WS")) (.ref "skip"))) (.opt (.seq (.plus (.ref "WS")) (.ref "limit")))))) (.alt (.seq (.ref "sortBy") (.seq (.opt (.seq (.plus (.ref "WS")) (.ref "skip"))) (.opt (.seq (.plus (.ref "WS")) (.ref "limit"))))) (.alt (.seq (.ref "skip") (.opt (.seq (.plus (.ref "WS")) (.ref "limit")))) (.ref "limit")))), ["QueryStmt", "QueryStmt", "QueryStmt", "QueryStmt"]⟩,
+  ⟨"skip", false, (.seq (.ref "SKIP_ROWS") (.seq (.plus (.ref "WS")) (.ref "NUMBER"))), ["SkipExpr"]⟩,
+  ⟨"limit", false, (.seq (.ref "LIMIT_ROWS") (.seq (.plus (.ref "WS")) (.alt (.ref "NONE") (.ref "NUMBER")))), ["LimitExpr"]⟩,
+  ⟨"sortBy", false, (.seq (.ref "SORT") (.seq (.plus (.ref "WS")) (.seq (.ref "BY") (.seq (.plus (.ref "WS")) (.seq (.ref "sortField") (.star (.seq (.star (.ref "WS")) (.seq (.lit [44]) (.seq (.star (.ref "WS")) (.ref "sortField")))))))))), ["SortByExpr"]⟩,
+  ⟨"sortField", false, (.seq (.ref "IDENTIFIER") (.opt (.seq (.plus (.ref "WS")) (.alt (.ref "ASC") (.ref "DESC"))))), ["SortFieldExpr"]⟩,
+  ⟨"boolExpr", false, (.alt (.ref "operation") (.alt (.seq (.ref "LPAREN") (.seq (.star (.ref "WS")) (.seq (.ref "boolExpr") (.seq (.star (.ref "WS")) (.ref "RPAREN"))))) (.alt (.seq (.ref "boolExpr") (.plus (.seq (.plus (.ref "WS")) (.seq (.ref "AND") (.seq (.plus (.ref "WS")) (.ref "boolExpr")))))) (.alt (.seq (.ref "boolExpr") (.plus (.seq (.plus (.ref "WS")) (.seq (.ref "OR") (.seq (.plus (.ref "WS")) (.ref "boolExpr")))))) (.alt (.ref "BOOL") (.alt (.seq (.ref "ISEMPTY") (.seq (.ref "LPAREN") (.seq (.star (.ref "WS")) (.seq (.ref "setExpr") (.seq (.star (.ref "WS")) (.ref "RPAREN")))))) (.alt (.ref "IDENTIFIER") (.seq (.ref "NOT") (.seq (.plus (.ref "WS")) (.ref "boolExpr")))))))))), ["OperationOp", "Group", "AndExpr", "OrExpr", "BoolConst", "IsEmptyFunction", "BoolSymbol", "NotExpr"]⟩,
+  ⟨"operation", false, (.alt (.seq (.ref "binaryLhs") (.seq (.plus (.ref "WS")) (.seq (.ref "IN") (.seq (.plus (.ref "WS")) (.ref "stringArray"))))) (.alt (.seq (.ref "binaryLhs") (.seq (.plus (.ref "WS")) (.seq (.ref "IN") (.seq (.plus (.ref "WS")) (.ref "numberArray"))))) (.alt (.seq (.ref "binaryLhs") (.seq (.plus (.ref "WS")) (.seq (.ref "IN") (.seq (.plus (.ref "WS")) (.ref "datetimeArray"))))) (.alt (.seq (.ref "binaryLhs") (.seq (.plus (.ref "WS")) (.seq (.ref "BETWEEN") (.seq (.plus (.ref "WS")) (.seq (.ref "NUMBER") (.seq (.plus (.ref "WS")) (.seq (.ref "AND") (.seq (.plus (.ref "WS")) (.ref "NUMBER"))))))))) (.alt (.seq (.ref "binaryLhs") (.seq (.plus (.ref "WS")) (.seq (.ref "BETWEEN") (.seq (.plus (.ref "WS")) (.seq (.ref "DATETIME") (.seq (.plus (.ref "WS")) (.seq (.ref "AND") (.seq (.plus (.ref "WS")) (.ref "DATETIME"))))))))) (.alt (.seq (.ref "binaryLhs") (.seq (.star (.ref "WS")) (.seq (.ref "LT") (.seq (.star (.ref "WS")) (.ref "STRING"))))) (.alt (.seq (.ref "binaryLhs") (.seq (.star (.ref "WS")) (.seq (.ref "LT") (.seq (.star (.ref "WS")) (.ref "NUMBER"))))) (.alt (.seq (.ref "binaryLhs") (.seq (.star (.ref "WS")) (.seq (.ref "LT") (.seq (.star (.ref "WS")) (.ref "DATETIME"))))) (.alt (.seq (.ref "binaryLhs") (.seq (.star (.ref "WS")) (.seq (.ref "GT") (.seq (.star (.ref "WS")) (.ref "STRING"))))) (.alt (.seq (.ref "binaryLhs") (.seq (.star (.ref "WS")) (.seq (.ref "GT") (.seq (.star (.ref "WS")) (.ref "NUMBER"))))) (.alt (.seq (.ref "binaryLhs") (.seq (.star (.ref "WS")) (.seq (.ref "GT") (.seq (.star (.ref "WS")) (.ref "DATETIME"))))) (.alt (.seq (.ref "binaryLhs") (.seq (.star (.ref "WS")) (.seq (.ref "EQ") (.seq (.star (.ref "WS")) (.ref "STRING"))))) (.alt (.seq (.ref "binaryLhs") (.seq (.star (.ref "WS")) (.seq (.ref "EQ") (.seq (.star (.ref "WS")) (.ref "NUMBER"))))) (.alt (.seq (.ref "binaryLhs") (.seq (.star (.ref "WS")) (.seq (.ref "EQ") (.seq (.star (.ref "WS")) (.ref "DATETIME"))))) (.alt (.seq (.ref "binaryLhs") (.seq (.star (.ref "WS")) (.seq (.ref "EQ") (.seq (.star (.ref "WS")) (.ref "BOOL"))))) (.alt (.seq (.ref "binaryLhs") (.seq (.star (.ref "WS")) (.seq (.ref "EQ") (.seq (.star (.ref "WS")) (.ref "NULL"))))) (.alt (.seq (.ref "binaryLhs") (.seq (.star (.ref "WS")) (.seq (.ref "CONTAINS") (.seq (.plus (.ref "WS")) (.alt (.ref "STRING") (.ref "NUMBER")))))) (.seq (.ref "binaryLhs") (.seq (.star (.ref "WS")) (.seq (.ref "ICONTAINS") (.seq (.plus (.ref "WS")) (.ref "STRING")))))))))))))))))))))), ["InStringArrayOp", "InNumberArrayOp", "InDatetimeArrayOp", "BetweenNumberOp", "BetweenDateOp", "BinaryLessThanStringOp", "BinaryLessThanNumberOp", "BinaryLessThanDatetimeOp", "BinaryGreaterThanStringOp", "BinaryGreaterThanNumberOp", "BinaryGreaterThanDatetimeOp", "BinaryEqualToStringOp", "BinaryEqualToNumberOp", "BinaryEqualToDatetimeOp", "BinaryEqualToBoolOp", "BinaryEqualToNullOp", "BinaryContainsOp", "BinaryContainsOp"]⟩,
+  ⟨"binaryLhs", false, (.alt (.ref "IDENTIFIER") (.ref "setFunction")), ["", ""]⟩,
+  ⟨"setFunction", false, (.alt (.seq (.ref "ALL_OF") (.seq (.ref "LPAREN") (.seq (.star (.ref "WS")) (.seq (.ref "IDENTIFIER") (.seq (.star (.ref "WS")) (.ref "RPAREN")))))) (.alt (.seq (.ref "ANY_OF") (.seq (.ref "LPAREN") (.seq (.star (.ref "WS")) (.seq (.ref "IDENTIFIER") (.seq (.star (.ref "WS")) (.ref "RPAREN")))))) (.seq (.ref "COUNT") (.seq (.ref "LPAREN") (.seq (.star (.ref "WS")) (.seq (.ref "setExpr") (.seq (.star (.ref "WS")) (.ref "RPAREN")))))))), ["SetFunctionExpr", "SetFunctionExpr", "SetFunctionExpr"]⟩,
+  ⟨"setExpr", false, (.alt (.ref "IDENTIFIER") (.ref "subQueryExpr")), ["", ""]⟩,
+  ⟨"subQueryExpr", false, (.seq (.ref "FROM") (.seq (.plus (.ref "WS")) (.seq (.ref "IDENTIFIER") (.seq (.plus (.ref "WS")) (.seq (.ref "WHERE") (.seq (.plus (.ref "WS")) (.ref "query"))))))), ["SubQuery"]⟩
+]
 
 end StorageModel.C10
